@@ -165,6 +165,9 @@ class G:
                     if triple and self.b(1, 4):
                         lit += "\n"
                     parts.append(lit)
+                    if lit.startswith("#") and self.b(2, 3):
+                        # a '#' in the literal text directly before a replacement field (f"item #{n}")
+                        parts.append("{" + self.c(["a", "x", "foo"]) + "}")
                 else:
                     e = self.fexpr()
                     conv = self.c(["", "", "!r", "!s", "!a"])
